@@ -98,6 +98,27 @@ Proof.
 Qed.
 Print Assumptions C07_segments_aligned_refuted.
 
+(* A finding of the faithful model: the only place decoder.Error is looked at is the last line of
+   decodeArguments.  A request whose header map cannot be decoded under the service's options (the io
+   decoder fails) is REJECTED when an argument list follows, but ACCEPTED - with the headers not understood -
+   when the call has no arguments.  (With C01's premise the header map of a peer codec always decodes; the
+   failure arises from option pairs such as RealType = float32 / big.Float on the service side against a
+   float64 / NaN header value.) *)
+Theorem C07_header_error_dropped_refuted : forall lower io_dec io_dec_hdrs so svc hw name m,
+  io_dec_hdrs (s_dec so) false hw = None -> lookup lower svc name = Some m ->
+  fst (service_decode_items lower io_dec io_dec_hdrs so svc
+         [ITag t_H; IVal hw; ITag t_C; IVal (string_wire name); ITag t_z]) =
+  SDDirty {| rq_name := name; rq_headers := []; rq_method := m; rq_args := [] |}.
+Proof. exact header_error_dropped. Qed.
+Print Assumptions C07_header_error_dropped_refuted.
+
+Theorem C07_header_error_reported_with_arguments : forall lower io_dec io_dec_hdrs so svc hw name m ws,
+  io_dec_hdrs (s_dec so) false hw = None -> lookup lower svc name = Some m ->
+  fst (service_decode_items lower io_dec io_dec_hdrs so svc
+         [ITag t_H; IVal hw; ITag t_C; IVal (string_wire name); IVal (WList ws); ITag t_z]) = SDDecodeError.
+Proof. exact header_error_reported_with_arguments. Qed.
+Print Assumptions C07_header_error_reported_with_arguments.
+
 (* ---- responses --------------------------------------------------------------------------------- *)
 
 (* For every list of result values (none / one / several) and every declared return-type list: the client
@@ -224,6 +245,19 @@ Theorem C07_jsonrpc_envelope_response :
   JCRes id (jnorm_h jnorm rh) (jexpected_results jconvert rts vs).
 Proof. intros. eapply jsonrpc_response_roundtrip; eassumption. Qed.
 Print Assumptions C07_jsonrpc_envelope_response.
+
+(* more results than declared return types (two or more declared): ClientCodec.Decode indexes
+   context.ReturnType out of range and panics (the hprose codec truncates instead) *)
+Theorem C07_jsonrpc_more_results_refuted :
+  forall jmarshal_resp junmarshal_resp jconv jnorm jconvert (jrep : gval -> Prop) (jfits : gval -> pty -> Prop),
+  J_value jconv jnorm jconvert jrep jfits -> J_array jnorm ->
+  forall id rts vs extra rh,
+  (2 <= length rts)%nat -> length rts = length vs -> extra <> [] ->
+  J_response jmarshal_resp junmarshal_resp jnorm (jresponse_of id (inl (GSlice (vs ++ extra))) rh) ->
+  Forall jrep vs -> jfits_all jfits rts vs ->
+  jclient_decode junmarshal_resp jconv rts (jservice_encode jmarshal_resp id (inl (GSlice (vs ++ extra))) rh) = JCPanic.
+Proof. intros. eapply jsonrpc_more_results_panics; eassumption. Qed.
+Print Assumptions C07_jsonrpc_more_results_refuted.
 
 (* errors: a protocol error keeps code and message; a PanicError keeps message and stack (data); any other
    error keeps its message; the message the caller sees is the function's own text *)
